@@ -140,6 +140,7 @@ def run(ctx):
                                       f"{s_}: verify() reports mutation {m} with {e['exc']['type']} instead of database_inconsistency", wit)
                 for cid in meta:
                     shutil.rmtree(os.path.join(root, cid), ignore_errors=True)
+        live_stage(ctx, root, tdirs)
     finally:
         shutil.rmtree(root, ignore_errors=True)
     ctx.exhaustive = True
@@ -155,8 +156,84 @@ def run(ctx):
             ctx.fail_harness("mutation kind never judged: " + need)
 
 
+def live_mutations(dbfile):
+    """Single-statement structural changes another writer can make while the library is open."""
+    import sqlite3
+    con = sqlite3.connect(dbfile)
+    try:
+        master = con.execute("SELECT type, name, tbl_name, sql FROM sqlite_master ORDER BY name").fetchall()
+        tables = [r[1] for r in master if r[0] == "table" and not r[1].startswith("sqlite_")]
+        idx = [r[1] for r in master if r[0] == "index" and r[3]]
+        views = [r[1] for r in master if r[0] == "view"]
+        out = [("add_table", "CREATE TABLE LiveExtra (x INTEGER)"), ("add_view", "CREATE VIEW LiveExtraView AS SELECT 1 AS one")]
+        if tables:
+            t = tables[len(tables) // 2]
+            col = con.execute('PRAGMA table_info("%s")' % t).fetchall()[0][1]
+            out.append(("add_index", 'CREATE INDEX live_extra_idx ON "%s" ("%s")' % (t, col)))
+            out.append(("add_column", 'ALTER TABLE "%s" ADD COLUMN liveExtra INTEGER' % tables[0]))
+        if idx:
+            out.append(("drop_index", 'DROP INDEX "%s"' % idx[len(idx) // 2]))
+        if views:
+            out.append(("drop_view", 'DROP VIEW "%s"' % views[-1]))
+        return out
+    finally:
+        con.close()
+
+
+def live_stage(ctx, root, tdirs):
+    """The same kinds of deviation appearing WHILE a handle is open: the library is loaded and verified (must pass), another
+    writer (a second connection) changes the structure, and verify() on the handle that is still open must now report it."""
+    cases, meta = [], {}
+    n = 0
+    for s in ALL_SCHEMAS:
+        v2 = is_v2(s)
+        for dbrel in (["Database2/m.db"] if v2 else ["m.db", "p.db"]):
+            for kind, ddl in live_mutations(os.path.join(tdirs[(s, "populated")], dbrel)):
+                cdir = os.path.join(root, "live%d" % n)
+                shutil.copytree(tdirs[(s, "populated")], cdir)
+                cid = "live%d" % n
+                n += 1
+                meta[cid] = (s, dbrel, kind, ddl)
+                cases.append({"id": cid, "ops": [{"op": "load", "dir": cdir}, {"op": "verify"}, {"op": "observe_all", "snapshots": False},
+                                                 {"op": "other_writer_exec", "file": os.path.join(cdir, dbrel), "sql": [ddl]},
+                                                 {"op": "verify"}, {"op": "release_all"}]})
+
+    def on_result(r):
+        s, dbrel, kind, ddl = meta[r.case["id"]]
+        fam = "v2" if is_v2(s) else "v1"
+        wit = {"schema": s, "file": dbrel, "live": True, "kind": kind, "ddl": ddl}
+        ev = r.events
+        if r.crash:
+            ctx.count()
+            ctx.violation(f"verify-crashes live:{kind}", f"{s}: verify() around a structural change by another writer died: {r.crash['kind']}", wit)
+            return
+        if len(ev) < 5 or "exc" in ev[0] or "exc" in ev[1]:
+            ctx.fail_harness("live-mutation control failed for %s %s" % (s, dbrel))
+            return
+        if "exc" in ev[3]:
+            ctx.bump_in("live_mutations_not_applicable", kind)
+            return
+        ctx.count()
+        ctx.nontriv("live|%s|%s|%s" % (s, dbrel, kind))
+        ctx.bump_in("mutations_made_by_another_writer_while_a_verified_handle_is_open", kind)
+        e = ev[4]
+        if "exc" not in e:
+            ctx.violation(f"deviation-not-reported-on-open-handle {fam} {kind} {dbrel.split('/')[-1]}",
+                          f"{s}: verify() passed, another writer then ran [{ddl}] on {dbrel}, and verify() on the still-open handle passes again", wit)
+        elif "database_inconsistency" not in e["exc"].get("is", []):
+            ctx.violation(f"deviation-wrong-exception live:{kind} {e['exc']['type']}",
+                          f"{s}: verify() reports [{ddl}] made by another writer with {e['exc']['type']} instead of database_inconsistency", wit)
+
+    runner.run_cases(cases, cfg="plain", on_result=on_result)
+    if not ctx.extra.get("mutations_made_by_another_writer_while_a_verified_handle_is_open"):
+        ctx.fail_harness("the live-mutation stage judged nothing")
+
+
 def replay(ctx, doc):
     r = doc["replay"]
+    if r.get("live"):
+        run(ctx)
+        return
     if "mutation" not in r:
         run(ctx)
         return
